@@ -119,8 +119,7 @@ def check(run):
     th = threading.Thread(target=drivers)
     th.start()
     try:
-        if not os.environ.get("C07_DEV_SKIP_M"):
-            design_level(run, thorough, base)
+        design_level(run, thorough, base)
     finally:
         th.join()
     if errs:
